@@ -234,6 +234,11 @@ impl Sched {
         if !g.active || me == usize::MAX {
             return;
         }
+        if g.abort.is_some() && std::thread::panicking() {
+            // the execution was aborted and this thread is already unwinding: its destructors
+            // run free on the real primitives (a second unwind would abort the process)
+            return;
+        }
         if let Some(o) = Inner::object_of(p) {
             g.touch(me, o);
             g.oplog.push((me as u8, o));
